@@ -303,7 +303,13 @@ void do_alloc(int o, size_t nm, size_t sz)
         CNT("class.alloc_unrepresentable");
         CK(got == 0 && d == nullptr, "alloc.unrepresentable_not_empty",
            "alloc(%s,%s): byte count not representable, yet size %s data %p", zs(nm).c_str(), zs(sz).c_str(), zs(got).c_str(), d);
-    } else if (bytes > g_alloc_limit || failed) {
+    } else if (bytes == 0 && got == 0 && d == nullptr) {
+        // zero bytes: an object without a buffer is as good an answer as a zero-length buffer
+        how = "zero bytes: empty object";
+        CNT("class.alloc_zero_empty");
+    } else if (bytes > g_alloc_limit || (failed && !(got == nm && d != nullptr))) {
+        // (a call during which a request was refused but that still produced the array found another way:
+        // it is judged as a success below)
         how = failed ? "allocation failed" : "over limit";
         if (bytes > g_alloc_limit) CNT("class.alloc_over_limit"); else CNT("class.alloc_fault");
         CK(got == 0 && d == nullptr, "alloc.failed_not_empty",
@@ -434,6 +440,15 @@ bool do_slice(int a, size_t beg, size_t end, int s, bool on_main)
               on_main ? " (objects abandoned afterwards)" : " (sacrificial twins)");
         op_begin();
         bool ab = may_abort([&] { cstl_array_slice(&g_arr[xa], beg, end, &g_arr[xs]); });
+        if (!ab && va.buf < 0 && beg == 0 && end == 0) {
+            // the empty range of an object without a buffer: neither "end < beg" nor "exceeds the bounds", so an
+            // implementation may abort (today's does) or hand back an empty object; then the destination let go
+            // of what it had and is empty
+            CNT("class.slice_empty_of_empty_returned");
+            if (xs != xa) drop_ref(xs);
+            op_end();
+            return true;
+        }
         CK(ab, "slice.abort_expected", "slice(%s,%s) on view %s did not abort", zs(beg).c_str(), zs(end).c_str(), vs(xa).c_str());
         abandon(xa);
         if (xs != xa) abandon(xs);
